@@ -252,7 +252,6 @@ func TestC31(t *testing.T) {
 			})
 		}
 	}
-	st := exploreBubble(t, newC31World, depth, deadline, visit)
 	// Deep leg: reduced alphabet, longer histories. (No state deduplication on
 	// the reference model: two histories that agree on everything the model
 	// knows may differ in hidden implementation state, which is precisely
@@ -265,6 +264,8 @@ func TestC31(t *testing.T) {
 		deepDepth = 1
 	}
 	deep := exploreBubble(t, newC31DeepWorld, deepDepth, deadline, visit)
+	// (the deep leg is small and runs first so that a time cap never cuts it)
+	st := exploreBubble(t, newC31World, depth, deadline, visit)
 	r.Set("bubble_sequences", st.Sequences+deep.Sequences)
 	r.Set("bubble_events", st.Events+deep.Events)
 	r.Set("bubble_depth", depth)
